@@ -567,104 +567,14 @@ namespace RbThm.C01Sim.SimRead
 open RbModel RbModel.Num RbModel.Ast RbModel.Src RbModel.Core RbModel.CoreVm RbModel.Ref
 open RbThm.C01Len
 
-/-! ### READ -/
+/-! ### READ
+
+`READ a, b` is generated as `READ a : READ b`: one call of the built-in per variable
+(`BeginCollectArguments; VarPathName x; CopyVarPathToA; PushUnnamedByRef; PushStack; BuiltInSub Read;
+EnqueueToReturnStack 0; PopStack; DequeueFromReturnStack; VarPathName x; CopyAToVarPath`), so every variable is assigned
+before the next DATA item is converted — the `readSeq` of the reference semantics, round by round. -/
 
 theorem steps_cast {code : Code} {σ τ τ' : Vm} (h : Steps code σ τ) (e : τ = τ') : Steps code σ τ' := e ▸ h
-
-/-- `VarPathName x; CopyVarPathToA; PushUnnamedByRef` per variable -/
-def pushCode (vars : List (Nat × Ty × Pos)) : Code :=
-  vars.flatMap (fun v => [(CInstr.varPath v.1, v.2.2), (CInstr.copyVarPathToA, v.2.2), (CInstr.pushByRef, v.2.2)])
-
-/-- `EnqueueToReturnStack i` per variable -/
-def enqCode (k : Nat) (vars : List (Nat × Ty × Pos)) : Code :=
-  (vars.zipIdx k).map (fun vi => (CInstr.enqueue vi.2, vi.1.2.2))
-
-/-- `DequeueFromReturnStack; VarPathName x; CopyAToVarPath` per variable -/
-def deqCode (vars : List (Nat × Ty × Pos)) : Code :=
-  vars.flatMap (fun v => [(CInstr.dequeue, v.2.2), (CInstr.varPath v.1, v.2.2), (CInstr.copyAToVarPath, v.2.2)])
-
-theorem compile_read (sfx : String) (off : Nat) (vars : List (Nat × Ty × Pos)) (p : Pos) :
-    compileStmt sfx off (.read vars p) =
-      [(CInstr.beginArgs, p)] ++ pushCode vars ++ [(CInstr.pushStack, p), (CInstr.builtInRead, p)] ++ enqCode 0 vars ++
-        [(CInstr.popStack, p)] ++ deqCode vars := by
-  simp only [compileStmt, pushCode, enqCode, deqCode]
-
-theorem len_pushCode (vars : List (Nat × Ty × Pos)) : (pushCode vars).length = 3 * vars.length :=
-  flatMap_const_len _ 3 (fun _ => rfl) vars
-
-theorem len_deqCode (vars : List (Nat × Ty × Pos)) : (deqCode vars).length = 3 * vars.length :=
-  flatMap_const_len _ 3 (fun _ => rfl) vars
-
-theorem len_enqCode (k : Nat) (vars : List (Nat × Ty × Pos)) : (enqCode k vars).length = vars.length := by
-  simp only [enqCode, List.length_map, List.length_zipIdx]
-
-def pushedSt (σ : Vm) (pc : Nat) (a : Val) (args : List (Val × Option Nat)) : Vm :=
-  { σ with pc := pc, regs := { σ.regs with a := a }, args := args }
-
-/-- collecting the by-reference arguments: every variable's current value and its slot are appended to the argument list -/
-theorem push_phase (code : Code) : ∀ (vars : List (Nat × Ty × Pos)) (off : Nat) (σ : Vm),
-    CodeAt code off (pushCode vars) → σ.pc = off → (∀ v ∈ vars, v.1 < σ.env.length) →
-    ∃ a, Steps code σ (pushedSt σ (off + 3 * vars.length) a
-      (σ.args ++ vars.map (fun v => (σ.env.getD v.1 (.int 0), some v.1))))
-  | [], off, σ, _, hpc, _ => by
-    subst hpc
-    refine ⟨σ.regs.a, steps_cast (Steps.refl σ) ?_⟩
-    simp only [pushedSt, List.length_nil, Nat.mul_zero, Nat.add_zero, List.map_nil, List.append_nil]
-  | (x, t, q) :: rest, off, σ, hc, hpc, hlt => by
-    subst hpc
-    have hx : x < σ.env.length := hlt (x, t, q) (List.mem_cons_self ..)
-    obtain ⟨hg, hs⟩ := getD_of_lt (Val.int 0) hx
-    simp only [pushCode, List.flatMap_cons] at hc
-    have h0 : code[σ.pc]? = some (CInstr.varPath x, q) := hc.append_left.head
-    have h1 : code[σ.pc + 1]? = some (CInstr.copyVarPathToA, q) := hc.append_left.tail.head
-    have h2 : code[σ.pc + 1 + 1]? = some (CInstr.pushByRef, q) := hc.append_left.tail.tail.head
-    let σ1 : Vm := advance { σ with paths := x :: σ.paths }
-    let σ2 : Vm := advance (setA σ1 σ.env[x])
-    let σ3 : Vm := advance { σ2 with args := σ2.args ++ [(σ2.regs.a, some x)], paths := σ.paths }
-    have s1 : CoreVm.step code σ = .next σ1 := by simp only [CoreVm.step, h0]; rfl
-    have s2 : CoreVm.step code σ1 = .next σ2 := by simp only [CoreVm.step, σ1, advance, h1, hs]; rfl
-    have s3 : CoreVm.step code σ2 = .next σ3 := by simp only [CoreVm.step, σ2, σ1, advance, setA, h2]; rfl
-    have hcr : CodeAt code (σ.pc + 3) (pushCode rest) := hc.append_right
-    obtain ⟨a, st⟩ := push_phase code rest (σ.pc + 3) σ3 hcr rfl (fun v hv => hlt v (List.mem_cons_of_mem _ hv))
-    have e1 : σ.pc + 3 + 3 * rest.length = σ.pc + 3 * ((x, t, q) :: rest).length := by
-      simp only [List.length_cons]; omega
-    have e2 : σ3.args ++ rest.map (fun v => (σ3.env.getD v.1 (Val.int 0), some v.1)) =
-        σ.args ++ ((x, t, q) :: rest).map (fun v => (σ.env.getD v.1 (Val.int 0), some v.1)) := by
-      simp only [σ3, σ2, σ1, advance, setA, hg, List.map_cons, List.append_assoc, List.singleton_append]
-    rw [e1, e2] at st
-    exact ⟨a, (Steps.cons s1 (Steps.cons s2 (Steps.one s3))).trans st⟩
-
-def enqSt (σ : Vm) (pc : Nat) (queue : List Val) : Vm := { σ with pc := pc, queue := queue }
-
-/-- the converted values are put into the by-reference return queue, in order -/
-theorem enq_phase (code : Code) : ∀ (vars : List (Nat × Ty × Pos)) (k off : Nat) (σ : Vm),
-    CodeAt code off (enqCode k vars) → σ.pc = off → k + vars.length ≤ σ.args.length →
-    Steps code σ (enqSt σ (off + vars.length) (σ.queue ++ ((σ.args.drop k).take vars.length).map (·.1)))
-  | [], k, off, σ, _, hpc, _ => by
-    subst hpc
-    refine steps_cast (Steps.refl σ) ?_
-    simp only [enqSt, List.length_nil, Nat.add_zero, List.take_zero, List.map_nil, List.append_nil]
-  | v :: rest, k, off, σ, hc, hpc, hlen => by
-    subst hpc
-    simp only [enqCode, List.zipIdx_cons, List.map_cons] at hc
-    have h0 : code[σ.pc]? = some (CInstr.enqueue k, v.2.2) := hc.head
-    have hk : k < σ.args.length := by simp only [List.length_cons] at hlen; omega
-    cases hpair : σ.args[k] with
-    | mk av asl =>
-    have hak : σ.args[k]? = some (av, asl) := by rw [List.getElem?_eq_getElem hk, hpair]
-    let σ1 : Vm := advance { σ with queue := σ.queue ++ [av] }
-    have s1 : CoreVm.step code σ = .next σ1 := by simp only [CoreVm.step, h0, hak]; rfl
-    have hcr : CodeAt code (σ.pc + 1) (enqCode (k + 1) rest) := hc.tail
-    have st := enq_phase code rest (k + 1) (σ.pc + 1) σ1 hcr rfl
-      (by simp only [List.length_cons] at hlen; show k + 1 + rest.length ≤ σ.args.length; omega)
-    have e1 : σ.pc + 1 + rest.length = σ.pc + (v :: rest).length := by simp only [List.length_cons]; omega
-    have e2 : σ1.queue ++ ((σ1.args.drop (k + 1)).take rest.length).map (·.1) =
-        σ.queue ++ ((σ.args.drop k).take (v :: rest).length).map (·.1) := by
-      show σ.queue ++ [av] ++ ((σ.args.drop (k + 1)).take rest.length).map (·.1) = _
-      rw [List.drop_eq_getElem_cons hk, hpair]
-      simp only [List.length_cons, List.take_succ_cons, List.map_cons, List.append_assoc, List.singleton_append]
-    rw [e1, e2] at st
-    exact Steps.cons s1 st
 
 /-- the variables assigned one after the other -/
 def setAll : List Val → List (Nat × Ty × Pos) → List Val → List Val
@@ -677,105 +587,173 @@ theorem setAll_length : ∀ (vars : List (Nat × Ty × Pos)) (ws : List Val) (en
   | _ :: _, [], _ => by simp only [setAll]
   | v :: vs, w :: ws, env => by simp only [setAll, setAll_length vs ws, List.length_set]
 
-def deqSt (σ : Vm) (pc : Nat) (a : Val) (queue env : List Val) : Vm :=
-  { σ with pc := pc, regs := { σ.regs with a := a }, queue := queue, env := env }
+/-- the code of one single-variable READ -/
+def readBlock (p : Pos) (v : Nat × Ty × Pos) : Code :=
+  [(CInstr.beginArgs, p), (CInstr.varPath v.1, v.2.2), (CInstr.copyVarPathToA, v.2.2), (CInstr.pushByRef, v.2.2),
+   (CInstr.pushStack, p), (CInstr.builtInRead, p), (CInstr.enqueue 0, v.2.2), (CInstr.popStack, p),
+   (CInstr.dequeue, v.2.2), (CInstr.varPath v.1, v.2.2), (CInstr.copyAToVarPath, v.2.2)]
 
-/-- the copy-back: the queued values are stored into the variables, in order -/
-theorem deq_phase (code : Code) : ∀ (vars : List (Nat × Ty × Pos)) (ws : List Val) (off : Nat) (σ : Vm) (tail : List Val),
-    CodeAt code off (deqCode vars) → σ.pc = off → σ.queue = ws ++ tail → ws.length = vars.length →
-    ∃ a, Steps code σ (deqSt σ (off + 3 * vars.length) a tail (setAll σ.env vars ws))
-  | [], [], off, σ, tail, _, hpc, hq, _ => by
-    subst hpc
-    have ht : tail = σ.queue := by rw [hq]; rfl
-    subst ht
-    exact ⟨σ.regs.a, Steps.refl σ⟩
-  | [], _ :: _, _, _, _, _, _, _, hl => by simp at hl
-  | _ :: _, [], _, _, _, _, _, _, hl => by simp at hl
-  | (x, t, q) :: rest, w :: ws, off, σ, tail, hc, hpc, hq, hl => by
-    subst hpc
-    simp only [deqCode, List.flatMap_cons] at hc
-    have h0 : code[σ.pc]? = some (CInstr.dequeue, q) := hc.append_left.head
-    have h1 : code[σ.pc + 1]? = some (CInstr.varPath x, q) := hc.append_left.tail.head
-    have h2 : code[σ.pc + 1 + 1]? = some (CInstr.copyAToVarPath, q) := hc.append_left.tail.tail.head
-    have hq' : σ.queue = w :: (ws ++ tail) := hq
-    let σ1 : Vm := advance { setA σ w with queue := ws ++ tail }
-    let σ2 : Vm := advance { σ1 with paths := x :: σ1.paths }
-    let σ3 : Vm := advance { σ2 with env := σ2.env.set x σ2.regs.a, paths := σ.paths }
-    have s1 : CoreVm.step code σ = .next σ1 := by simp only [CoreVm.step, h0, hq']; rfl
-    have s2 : CoreVm.step code σ1 = .next σ2 := by simp only [CoreVm.step, σ1, advance, setA, h1]; rfl
-    have s3 : CoreVm.step code σ2 = .next σ3 := by simp only [CoreVm.step, σ2, σ1, advance, setA, h2]; rfl
-    have hcr : CodeAt code (σ.pc + 3) (deqCode rest) := hc.append_right
-    obtain ⟨a, st⟩ := deq_phase code rest ws (σ.pc + 3) σ3 tail hcr rfl rfl
-      (by simp only [List.length_cons] at hl; omega)
-    have e1 : σ.pc + 3 + 3 * rest.length = σ.pc + 3 * ((x, t, q) :: rest).length := by
-      simp only [List.length_cons]; omega
-    rw [e1] at st
-    exact ⟨a, (Steps.cons s1 (Steps.cons s2 (Steps.one s3))).trans st⟩
+theorem compile_read (sfx : String) (off : Nat) (vars : List (Nat × Ty × Pos)) (p : Pos) :
+    compileStmt sfx off (.read vars p) =
+      if vars.isEmpty then
+        [(CInstr.beginArgs, p), (CInstr.pushStack, p), (CInstr.builtInRead, p), (CInstr.popStack, p)]
+      else vars.flatMap (readBlock p) := by
+  simp only [compileStmt]
+  rfl
 
-/-- the reference semantics of `READ x1, …, xn` against the built-in's loop over the collected arguments (any argument
-list whose values carry the declared types of the variables) -/
-theorem read_ref (p : Pos) (f : (Nat × Ty × Pos) → Val × Option Nat) :
-    ∀ (vars : List (Nat × Ty × Pos)) (fuel : Nat) (s : St),
-      (∀ v ∈ vars, (f v).1.tag = v.2.1) →
-      match exec (fuel + 1) (readSeq p vars) s with
-      | (s', .normal) => ∃ rs, readArgs (vars.map f) s.data s.dataIdx = .inl (.ok (rs, s.dataIdx + vars.length)) ∧
-          rs.length = vars.length ∧ s'.env = setAll s.env vars (rs.map (·.1)) ∧ s'.out = s.out ∧ s'.data = s.data ∧
-          s'.dataIdx = s.dataIdx + vars.length
-      | (s', .error c q) => s'.out = s.out ∧ q = p ∧
-          ((readArgs (vars.map f) s.data s.dataIdx = .inr () ∧ c = codeOutOfData) ∨
-           (∃ e, readArgs (vars.map f) s.data s.dataIdx = .inl (.error e) ∧ c = codeOf e))
-      | (_, .halted) => False
-      | _ => True
-  | [], fuel, s, _ => by
-    simp only [readSeq, exec]
-    refine ⟨[], ?_⟩
-    simp [readArgs, setAll]
-  | (x, t, q) :: rest, fuel, s, hf => by
+theorem len_readBlocks (p : Pos) (vars : List (Nat × Ty × Pos)) : (vars.flatMap (readBlock p)).length = 11 * vars.length :=
+  flatMap_const_len _ 11 (fun _ => rfl) vars
+
+/-- **one single-variable READ**: the built-in converts the next DATA item to the type of the value the variable holds
+(`v0`, of the declared type `t`), the converted value travels through the return queue back into the variable -/
+theorem one_read (code : Code) (f : Nat) (x : Nat) (t : Ty) (q p : Pos) (off : Nat) (σ : Vm) (s : St) (v0 : Val)
+    (hc : CodeAt code off (readBlock p (x, t, q))) (hpc : σ.pc = off) (hr : Rel s σ)
+    (hv0 : s.env[x]? = some v0) (htag : v0.tag = t) :
+    StmtSpec code 11 off σ s (exec (f + 1) (.read x t p) s) := by
+  subst hpc
+  simp only [readBlock] at hc
+  have h0 : code[σ.pc]? = some (CInstr.beginArgs, p) := hc.head
+  have h1 : code[σ.pc + 1]? = some (CInstr.varPath x, q) := hc.tail.head
+  have h2 : code[σ.pc + 1 + 1]? = some (CInstr.copyVarPathToA, q) := hc.tail.tail.head
+  have h3 : code[σ.pc + 1 + 1 + 1]? = some (CInstr.pushByRef, q) := hc.tail.tail.tail.head
+  have h4 : code[σ.pc + 1 + 1 + 1 + 1]? = some (CInstr.pushStack, p) := hc.tail.tail.tail.tail.head
+  have h5 : code[σ.pc + 1 + 1 + 1 + 1 + 1]? = some (CInstr.builtInRead, p) := hc.tail.tail.tail.tail.tail.head
+  have h6 : code[σ.pc + 1 + 1 + 1 + 1 + 1 + 1]? = some (CInstr.enqueue 0, q) := hc.tail.tail.tail.tail.tail.tail.head
+  have h7 : code[σ.pc + 1 + 1 + 1 + 1 + 1 + 1 + 1]? = some (CInstr.popStack, p) :=
+    hc.tail.tail.tail.tail.tail.tail.tail.head
+  have h8 : code[σ.pc + 1 + 1 + 1 + 1 + 1 + 1 + 1 + 1]? = some (CInstr.dequeue, q) :=
+    hc.tail.tail.tail.tail.tail.tail.tail.tail.head
+  have h9 : code[σ.pc + 1 + 1 + 1 + 1 + 1 + 1 + 1 + 1 + 1]? = some (CInstr.varPath x, q) :=
+    hc.tail.tail.tail.tail.tail.tail.tail.tail.tail.head
+  have h10 : code[σ.pc + 1 + 1 + 1 + 1 + 1 + 1 + 1 + 1 + 1 + 1]? = some (CInstr.copyAToVarPath, q) :=
+    hc.tail.tail.tail.tail.tail.tail.tail.tail.tail.tail.head
+  have hs : σ.env[x]? = some v0 := by rw [hr.env]; exact hv0
+  -- the call with its one argument
+  let σ1 : Vm := advance { σ with args := [] }
+  let σ2 : Vm := advance { σ1 with paths := x :: σ1.paths }
+  let σ3 : Vm := advance (setA σ2 v0)
+  let σ4 : Vm := advance { σ3 with args := [(v0, some x)], paths := σ.paths }
+  let σ5 : Vm := advance { σ4 with callPos := p }
+  have s1 : CoreVm.step code σ = .next σ1 := by simp only [CoreVm.step, h0]; rfl
+  have s2 : CoreVm.step code σ1 = .next σ2 := by simp only [CoreVm.step, σ1, advance, h1]; rfl
+  have s3 : CoreVm.step code σ2 = .next σ3 := by simp only [CoreVm.step, σ2, σ1, advance, h2, hs]; rfl
+  have s4 : CoreVm.step code σ3 = .next σ4 := by simp only [CoreVm.step, σ3, σ2, σ1, advance, setA, h3]; rfl
+  have s5 : CoreVm.step code σ4 = .next σ5 := by simp only [CoreVm.step, σ4, σ3, σ2, σ1, advance, setA, h4]; rfl
+  have pre : Steps code σ σ5 := Steps.cons s1 (Steps.cons s2 (Steps.cons s3 (Steps.cons s4 (Steps.one s5))))
+  have hread : CoreVm.step code σ5 =
+      match readArgs [(v0, some x)] s.data s.dataIdx with
+      | .inr () => .error Ref.codeOutOfData p σ5
+      | .inl (.error e) => .error (Ref.codeOf e) p σ5
+      | .inl (.ok (args', idx')) => .next (advance { σ5 with args := args', dataIdx := idx' }) := by
+    have h5' : code[σ5.pc]? = some (CInstr.builtInRead, p) := h5
+    have e : readArgs σ5.args σ5.data σ5.dataIdx = readArgs [(v0, some x)] s.data s.dataIdx := by
+      have e2 : σ5.data = s.data := hr.data
+      have e3 : σ5.dataIdx = s.dataIdx := hr.dataIdx
+      rw [e2, e3]; rfl
+    simp only [CoreVm.step, h5']
+    rw [e]; rfl
+  simp only [exec]
+  cases hd : s.data[s.dataIdx]? with
+  | none =>
+    simp only [StmtSpec]
+    refine ⟨σ.env, σ5, σ5, pre, ?_, rfl, hr.out⟩
+    rw [hread]; simp only [readArgs, hd]
+  | some v =>
+    simp only
+    cases hcst : Num.cast v t with
+    | inexact => simp only [StmtSpec]
+    | err e =>
+      simp only [StmtSpec]
+      refine ⟨σ.env, σ5, σ5, pre, ?_, rfl, hr.out⟩
+      rw [hread]; simp only [readArgs, hd, htag, hcst]
+    | ok w =>
+      simp only [StmtSpec]
+      let σ6 : Vm := advance { σ5 with args := [(w, some x)], dataIdx := s.dataIdx + 1 }
+      let σ7 : Vm := advance { σ6 with queue := σ6.queue ++ [w] }
+      let σ8 : Vm := advance { σ7 with args := [] }
+      let σ9 : Vm := advance { setA σ8 w with queue := [] }
+      let σ10 : Vm := advance { σ9 with paths := x :: σ9.paths }
+      let σ11 : Vm := advance { σ10 with env := σ10.env.set x σ10.regs.a, paths := σ.paths }
+      have s6 : CoreVm.step code σ5 = .next σ6 := by
+        rw [hread]; simp only [readArgs, hd, htag, hcst]; rfl
+      have s7 : CoreVm.step code σ6 = .next σ7 := by
+        have h6' : code[σ6.pc]? = some (CInstr.enqueue 0, q) := h6
+        have ha : σ6.args[0]? = some (w, some x) := rfl
+        simp only [CoreVm.step, h6', ha]; rfl
+      have s8 : CoreVm.step code σ7 = .next σ8 := by
+        have h7' : code[σ7.pc]? = some (CInstr.popStack, p) := h7
+        simp only [CoreVm.step, h7']; rfl
+      have s9 : CoreVm.step code σ8 = .next σ9 := by
+        have h8' : code[σ8.pc]? = some (CInstr.dequeue, q) := h8
+        have hq8 : σ8.queue = [w] := by show σ.queue ++ [w] = [w]; rw [hr.queue]; rfl
+        simp only [CoreVm.step, h8', hq8]; rfl
+      have s10 : CoreVm.step code σ9 = .next σ10 := by
+        have h9' : code[σ9.pc]? = some (CInstr.varPath x, q) := h9
+        simp only [CoreVm.step, h9']; rfl
+      have s11 : CoreVm.step code σ10 = .next σ11 := by
+        have h10' : code[σ10.pc]? = some (CInstr.copyAToVarPath, q) := h10
+        have hp10 : σ10.paths = x :: σ.paths := rfl
+        simp only [CoreVm.step, h10', hp10]; rfl
+      refine ⟨σ11, pre.trans (Steps.cons s6 (Steps.cons s7 (Steps.cons s8 (Steps.cons s9
+        (Steps.cons s10 (Steps.one s11)))))), rfl, ?_, ⟨rfl, rfl, rfl⟩, ?_⟩
+      · refine rel_of _ _ ?_ hr.out hr.skip hr.data ?_ rfl
+        · show σ.env.set x w = s.env.set x w
+          rw [hr.env]
+        · show s.dataIdx + 1 = s.dataIdx + 1
+          rfl
+      · show (s.env.set x w).length = s.env.length
+        rw [List.length_set]
+
+/-- the rounds of a READ statement: `readSeq` against the blocks, one unit of fuel per round -/
+theorem reads_correct (code : Code) (p : Pos) (sl : List Ty) :
+    ∀ (vars : List (Nat × Ty × Pos)) (fuel : Nat) (off : Nat) (σ : Vm) (s : St),
+      CodeAt code off (vars.flatMap (readBlock p)) → σ.pc = off → Rel s σ →
+      (∀ v ∈ vars, sl[v.1]? = some v.2.1) → Typed sl s.env →
+      StmtSpec code (11 * vars.length) off σ s (exec (fuel + 1) (readSeq p vars) s)
+  | [], fuel, off, σ, s, _, hpc, hr, _, _ => by
+    simp only [readSeq, exec, StmtSpec]
+    refine ⟨σ, Steps.refl σ, ?_, hr, SameStacks.refl σ, ?_⟩ <;> simp [hpc]
+  | (x, t, q) :: rest, fuel, off, σ, s, hc, hpc, hr, hw, hty => by
+    simp only [List.flatMap_cons] at hc
     simp only [readSeq, exec]
     cases fuel with
-    | zero => simp only [exec]
-    | succ fl =>
-      simp only [exec]
-      cases hfv : f (x, t, q) with
-      | mk cur slot =>
-      have hcur : cur.tag = t := by
-        have := hf (x, t, q) (List.mem_cons_self ..)
-        rw [hfv] at this; exact this
-      simp only [List.map_cons, hfv, readArgs, hcur]
-      cases hd : s.data[s.dataIdx]? with
-      | none => simp
-      | some v =>
+    | zero => simp only [exec, StmtSpec]
+    | succ f =>
+      have hx : sl[x]? = some t := hw (x, t, q) (List.mem_cons_self ..)
+      obtain ⟨v0, hv0, htag⟩ := hty.2 x t hx
+      have h1 := one_read code f x t q p off σ s v0 hc.append_left hpc hr hv0 htag
+      generalize hra : exec (f + 1) (Stmt.read x t p) s = ra at h1 ⊢
+      obtain ⟨s1, o1⟩ := ra
+      cases o1 with
+      | normal =>
+        simp only [StmtSpec] at h1
+        obtain ⟨τ, st, hp, hrel, hss, hlen⟩ := h1
+        have hty1 : Typed sl s1.env := (pres_all sl (f + 1)).1 (.read x t p) s s1 (by simp only [WfA]; exact hx) hty hra
+        have hcr : CodeAt code (off + 11) (rest.flatMap (readBlock p)) := hc.append_right
+        have h2 := reads_correct code p sl rest f (off + 11) τ s1 hcr hp hrel
+          (fun v hv => hw v (List.mem_cons_of_mem _ hv)) hty1
         simp only
-        cases hc : Num.cast v t with
-        | err e => simp
-        | inexact => simp only
-        | ok w =>
-          simp only
-          have ih := read_ref p f rest fl { s.set x w with dataIdx := s.dataIdx + 1 }
-            (fun v hv => hf v (List.mem_cons_of_mem _ hv))
-          generalize hr : exec (fl + 1) (readSeq p rest) { s.set x w with dataIdx := s.dataIdx + 1 } = r at ih ⊢
-          obtain ⟨s2, o2⟩ := r
-          cases o2 with
-          | normal =>
-            simp only [St.set] at ih ⊢
-            obtain ⟨rs, h1, h2, h3, h4, h5, h6⟩ := ih
-            refine ⟨(w, slot) :: rs, ?_, ?_, ?_, h4, h5, ?_⟩
-            · rw [h1]
-              simp only [List.length_cons]
-              congr 3; omega
-            · simp only [List.length_cons, h2]
-            · simp only [List.map_cons, setAll]; exact h3
-            · rw [h6]; simp only [List.length_cons]; omega
-          | error c q' =>
-            simp only [St.set] at ih ⊢
-            obtain ⟨h1, h2, h3⟩ := ih
-            refine ⟨h1, h2, ?_⟩
-            rcases h3 with ⟨h3, hc'⟩ | ⟨e, h3, hc'⟩
-            · left; rw [h3]; exact ⟨rfl, hc'⟩
-            · right; rw [h3]; exact ⟨e, rfl, hc'⟩
-          | halted => simp only at ih
-          | inexact => simp only
-          | outOfFuel => simp only
+        generalize exec (f + 1) (readSeq p rest) s1 = rb at h2 ⊢
+        obtain ⟨s2, o2⟩ := rb
+        cases o2 with
+        | normal =>
+          simp only [StmtSpec] at h2 ⊢
+          obtain ⟨υ, st2, hp2, hrel2, hss2, hlen2⟩ := h2
+          exact ⟨υ, st.trans st2, by rw [hp2]; simp only [List.length_cons]; omega, hrel2, hss.trans hss2, by omega⟩
+        | halted =>
+          simp only [StmtSpec] at h2 ⊢
+          obtain ⟨υ, ω, st2, hh, hrel2⟩ := h2
+          exact ⟨υ, ω, st.trans st2, hh, hrel2⟩
+        | error c q' =>
+          simp only [StmtSpec] at h2 ⊢
+          obtain ⟨ev, h2⟩ := h2
+          exact ⟨ev, ErrsWith.of_steps st h2⟩
+        | inexact => simp only [StmtSpec]
+        | outOfFuel => simp only [StmtSpec]
+      | halted => simpa only [StmtSpec] using h1
+      | error c q' => simpa only [StmtSpec] using h1
+      | inexact => simp only [StmtSpec]
+      | outOfFuel => simp only [StmtSpec]
 
 end RbThm.C01Sim.SimRead
 
@@ -783,9 +761,9 @@ namespace RbThm.C01Sim
 open RbModel RbModel.Num RbModel.Ast RbModel.Src RbModel.Core RbModel.CoreVm RbModel.Ref
 open RbThm.C01Len RbThm.C01Sim.SimRead
 
-/-- **READ**: `BeginCollectArguments`, the variables by reference, `PushStack`, the built-in, the converted values through
-the return queue back into the variables.  The built-in converts every DATA item to the type of the value the variable
-currently holds, which is its declared type because the environment is `Typed`. -/
+/-- **READ**: one call of the built-in per variable (`READ a, b` = `READ a : READ b`); the built-in converts the DATA
+item to the type of the value the variable currently holds — its declared type, because the environment is `Typed`.
+A READ without variables is an empty call. -/
 theorem case_read (code : Code) (fuel : Nat) (vars : List (Nat × Ty × Pos)) (p : Pos) (sfx : String) (off : Nat)
     (σ : Vm) (s : St)
     (hc : CodeAt code off (compileStmt sfx off (.read vars p))) (hpc : σ.pc = off) (hr : Rel s σ)
@@ -793,118 +771,34 @@ theorem case_read (code : Code) (fuel : Nat) (vars : List (Nat × Ty × Pos)) (p
     StmtSpec code (sizeStmt (.read vars p)) off σ s (exec (fuel + 1) (desugar (.read vars p)) s) := by
   rw [compile_read] at hc
   simp only [Wf] at hw
-  subst hpc
-  have hlt : ∀ v ∈ vars, v.1 < σ.env.length := fun v hv => by rw [hr.env]; exact hty.lt (hw v hv)
-  -- BeginCollectArguments
-  have h0 : code[σ.pc]? = some (CInstr.beginArgs, p) :=
-    hc.append_left.append_left.append_left.append_left.append_left.head
-  let σ1 : Vm := advance { σ with args := [] }
-  have s1 : CoreVm.step code σ = .next σ1 := by simp only [CoreVm.step, h0]; rfl
-  -- the arguments
-  have hcp : CodeAt code (σ.pc + 1) (pushCode vars) :=
-    hc.append_left.append_left.append_left.append_left.append_right
-  obtain ⟨a, st2⟩ := push_phase code vars (σ.pc + 1) σ1 hcp rfl hlt
-  let f : (Nat × Ty × Pos) → Val × Option Nat := fun v => (σ.env.getD v.1 (Val.int 0), some v.1)
-  let σ2 : Vm := pushedSt σ1 (σ.pc + 1 + 3 * vars.length) a (vars.map f)
-  have st2' : Steps code σ1 σ2 := st2
-  -- PushStack; BuiltInSub Read
-  have h3 : code[σ.pc + 1 + 3 * vars.length]? = some (CInstr.pushStack, p) := by
-    have := hc.append_left.append_left.append_left.append_right.head
-    simp only [List.length_append, List.length_singleton, len_pushCode] at this
-    rw [← this]; congr 1; omega
-  have h4 : code[σ.pc + 1 + 3 * vars.length + 1]? = some (CInstr.builtInRead, p) := by
-    have := hc.append_left.append_left.append_left.append_right.tail.head
-    simp only [List.length_append, List.length_singleton, len_pushCode] at this
-    rw [← this]; congr 1; omega
-  let σ3 : Vm := advance { σ2 with callPos := p }
-  have s3 : CoreVm.step code σ2 = .next σ3 := by simp only [CoreVm.step, σ2, pushedSt, h3]; rfl
-  have pre : Steps code σ σ3 := (Steps.cons s1 st2').trans (Steps.one s3)
-  have hread : CoreVm.step code σ3 =
-      match readArgs (vars.map f) s.data s.dataIdx with
-      | .inr () => .error Ref.codeOutOfData p σ3
-      | .inl (.error e) => .error (Ref.codeOf e) p σ3
-      | .inl (.ok (args', idx')) => .next (advance { σ3 with args := args', dataIdx := idx' }) := by
-    have h4' : code[σ3.pc]? = some (CInstr.builtInRead, p) := h4
-    have e : readArgs σ3.args σ3.data σ3.dataIdx = readArgs (vars.map f) s.data s.dataIdx := by
-      have e2 : σ3.data = s.data := hr.data
-      have e3 : σ3.dataIdx = s.dataIdx := hr.dataIdx
-      rw [e2, e3]; rfl
-    simp only [CoreVm.step, h4']
-    rw [e]; rfl
-  have htag : ∀ v ∈ vars, (f v).1.tag = v.2.1 := fun v hv => by
-    show (σ.env.getD v.1 (Val.int 0)).tag = v.2.1
-    rw [hr.env]; exact typed_getD_tag hty (hw v hv) _
-  have href := read_ref p f vars fuel s htag
-  simp only [desugar, sizeStmt]
-  generalize hrr : exec (fuel + 1) (readSeq p vars) s = r at href ⊢
-  obtain ⟨s', o⟩ := r
-  cases o with
-  | halted => exact href.elim
-  | inexact => simp [StmtSpec]
-  | outOfFuel => simp [StmtSpec]
-  | error c q =>
-    simp only at href
-    obtain ⟨hout, hq, hcase⟩ := href
-    subst hq
-    simp only [StmtSpec]
-    refine ⟨σ.env, σ3, σ3, pre, ?_, rfl, ?_⟩
-    · rcases hcase with ⟨hra, hcd⟩ | ⟨e, hra, hcd⟩
-      · rw [hread, hra, hcd]
-      · rw [hread, hra, hcd]
-    · rw [hout]; exact hr.out
-  | normal =>
-    simp only at href
-    obtain ⟨rs, hra, hlen, henv, hout, hdata, hidx⟩ := href
-    rw [hra] at hread
-    simp only at hread
-    let σ4 : Vm := advance { σ3 with args := rs, dataIdx := s.dataIdx + vars.length }
-    have s4 : CoreVm.step code σ3 = .next σ4 := hread
-    -- the return queue
-    have hce : CodeAt code (σ.pc + 1 + 3 * vars.length + 2) (enqCode 0 vars) := by
-      have := hc.append_left.append_left.append_right
-      simp only [List.length_append, List.length_singleton, List.length_cons, List.length_nil, len_pushCode] at this
-      have e : σ.pc + (0 + 1 + 3 * vars.length + (0 + 1 + 1)) = σ.pc + 1 + 3 * vars.length + 2 := by omega
-      rw [e] at this; exact this
-    have st5 := enq_phase code vars 0 (σ.pc + 1 + 3 * vars.length + 2) σ4 hce rfl
-      (by show 0 + vars.length ≤ rs.length; omega)
-    have hq4 : σ4.queue = [] := hr.queue
-    have hws : ((σ4.args.drop 0).take vars.length).map (·.1) = rs.map (·.1) := by
-      show ((rs.drop 0).take vars.length).map (·.1) = rs.map (·.1)
-      rw [List.drop_zero, ← hlen, List.take_length]
-    rw [hq4, hws, List.nil_append] at st5
-    let σ5 : Vm := enqSt σ4 (σ.pc + 1 + 3 * vars.length + 2 + vars.length) (rs.map (·.1))
-    -- PopStack
-    have h6 : code[σ.pc + 1 + 3 * vars.length + 2 + vars.length]? = some (CInstr.popStack, p) := by
-      have := hc.append_left.append_right.head
-      simp only [List.length_append, List.length_singleton, List.length_cons, List.length_nil, len_pushCode,
-        len_enqCode] at this
-      rw [← this]; congr 1; omega
-    let σ6 : Vm := advance { σ5 with args := [] }
-    have s6 : CoreVm.step code σ5 = .next σ6 := by simp only [CoreVm.step, σ5, enqSt, h6]; rfl
-    -- the copy-back
-    have hcd : CodeAt code (σ.pc + 1 + 3 * vars.length + 2 + vars.length + 1) (deqCode vars) := by
-      have := hc.append_right
-      simp only [List.length_append, List.length_singleton, List.length_cons, List.length_nil, len_pushCode,
-        len_enqCode] at this
-      have e : σ.pc + (0 + 1 + 3 * vars.length + (0 + 1 + 1) + vars.length + 1) =
-          σ.pc + 1 + 3 * vars.length + 2 + vars.length + 1 := by omega
-      rw [e] at this; exact this
-    obtain ⟨a7, st7⟩ := deq_phase code vars (rs.map (·.1)) _ σ6 [] hcd rfl
-      (by show rs.map (·.1) = rs.map (·.1) ++ []; rw [List.append_nil])
-      (by rw [List.length_map, hlen])
-    simp only [StmtSpec]
-    refine ⟨_, ((pre.trans (Steps.cons s4 st5)).trans (Steps.one s6)).trans st7, ?_, ?_, ⟨rfl, rfl, rfl⟩, ?_⟩
-    · show σ.pc + 1 + 3 * vars.length + 2 + vars.length + 1 + 3 * vars.length = _
-      omega
-    · refine rel_of _ _ ?_ ?_ hr.skip ?_ ?_ rfl
-      · show setAll σ.env vars (rs.map (·.1)) = s'.env
-        rw [henv, hr.env]
-      · show σ.out = s'.out
-        rw [hout]; exact hr.out
-      · show σ.data = s'.data
-        rw [hdata]; exact hr.data
-      · show s.dataIdx + vars.length = s'.dataIdx
-        rw [hidx]
-    · rw [henv, setAll_length]
+  cases vars with
+  | nil =>
+    simp only [List.isEmpty_nil, if_true] at hc
+    subst hpc
+    have h0 : code[σ.pc]? = some (CInstr.beginArgs, p) := hc.head
+    have h1 : code[σ.pc + 1]? = some (CInstr.pushStack, p) := hc.tail.head
+    have h2 : code[σ.pc + 1 + 1]? = some (CInstr.builtInRead, p) := hc.tail.tail.head
+    have h3 : code[σ.pc + 1 + 1 + 1]? = some (CInstr.popStack, p) := hc.tail.tail.tail.head
+    let σ1 : Vm := advance { σ with args := [] }
+    let σ2 : Vm := advance { σ1 with callPos := p }
+    let σ3 : Vm := advance { σ2 with args := [], dataIdx := σ2.dataIdx }
+    let σ4 : Vm := advance { σ3 with args := [] }
+    have s1 : CoreVm.step code σ = .next σ1 := by simp only [CoreVm.step, h0]; rfl
+    have s2 : CoreVm.step code σ1 = .next σ2 := by simp only [CoreVm.step, σ1, advance, h1]; rfl
+    have s3 : CoreVm.step code σ2 = .next σ3 := by
+      have h2' : code[σ2.pc]? = some (CInstr.builtInRead, p) := h2
+      have ha : σ2.args = [] := rfl
+      simp only [CoreVm.step, h2', ha, readArgs]; rfl
+    have s4 : CoreVm.step code σ3 = .next σ4 := by
+      have h3' : code[σ3.pc]? = some (CInstr.popStack, p) := h3
+      simp only [CoreVm.step, h3']; rfl
+    simp only [desugar, readSeq, exec, sizeStmt, List.isEmpty_nil, if_true, StmtSpec]
+    exact ⟨σ4, Steps.cons s1 (Steps.cons s2 (Steps.cons s3 (Steps.one s4))), rfl,
+      rel_of _ _ hr.env hr.out hr.skip hr.data hr.dataIdx hr.queue, ⟨rfl, rfl, rfl⟩, trivial⟩
+  | cons v rest =>
+    simp only [List.isEmpty_cons, Bool.false_eq_true, if_false] at hc
+    have h := reads_correct code p sl (v :: rest) fuel off σ s hc hpc hr hw hty
+    simp only [desugar, sizeStmt, List.isEmpty_cons, Bool.false_eq_true, if_false]
+    exact h
 
 end RbThm.C01Sim
